@@ -19,6 +19,8 @@ pub fn prot_palette() -> Vec<RProtected> {
     let two = RHeader { alg: Some(l_int(-7)), key_id: b"11".to_vec(), ..Default::default() };
     let extras = RHeader { rest: vec![(l_text("z"), gen::u(1)), (l_int(-1), gen::b(b"x"))], ..Default::default() };
     let cs = RHeader { counter_signatures: vec![sig_reps()[1].clone()], ..Default::default() };
+    // three distinct counter signatures: the list form, in the order given
+    let cs3 = RHeader { counter_signatures: vec![sig_reps()[2].clone(), sig_reps()[0].clone(), sig_reps()[1].clone()], ..Default::default() };
     let mut v = vec![
         RProtected { original: Some(vec![]), header: RHeader::default() },
         RProtected { original: Some(vec![0xa0]), header: RHeader::default() },
@@ -29,6 +31,7 @@ pub fn prot_palette() -> Vec<RProtected> {
         RProtected { original: None, header: alg.clone() },
         RProtected { original: None, header: extras.clone() },
         RProtected { original: None, header: cs.clone() },
+        RProtected { original: None, header: cs3.clone() },
     ];
     // retained bytes win over an edited parsed view
     v.push(RProtected { original: Some(vec![]), header: alg.clone() });
